@@ -74,24 +74,17 @@ Join(parts, sep) ==
 RECURSIVE IndexFrom(_, _, _)
 IndexFrom(s, c, i) == IF i > Len(s) THEN 0 ELSE IF Ch(s, i) = c THEN i ELSE IndexFrom(s, c, i + 1)
 
-(* runs of "/" collapsed to one "/": a comparison device for inputs that    *)
-(* contain redundant slashes (both sides are squeezed, "://" included)      *)
-RECURSIVE SqueezeAcc(_, _)
-SqueezeAcc(s, i) ==
-  IF i > Len(s) THEN ""
-  ELSE IF Ch(s, i) = "/" /\ i > 1 /\ Ch(s, i - 1) = "/" THEN SqueezeAcc(s, i + 1)
-  ELSE Ch(s, i) \o SqueezeAcc(s, i + 1)
-Squeeze(s) == SqueezeAcc(s, 1)
-
-(* "redundant slashes": an empty path segment other than the one in "://",  *)
-(* i.e. "//" anywhere after the scheme separator, or a trailing "/"         *)
-SchemeSepEnd(s) ==          \* position of the second "/" of the first "://", or 0
-  LET i == IndexFrom(s, ":", 1)
-  IN IF i > 0 /\ i + 2 <= Len(s) /\ Ch(s, i + 1) = "/" /\ Ch(s, i + 2) = "/" THEN i + 2 ELSE 0
-HasRedundantSlash(s) ==
-  LET e == SchemeSepEnd(s)
-  IN \/ \E i \in (e + 1)..(Len(s) - 1) : Ch(s, i) = "/" /\ Ch(s, i + 1) = "/"
-     \/ (Len(s) > 0 /\ Ch(s, Len(s)) = "/")
+(* "Redundant slashes": an empty path segment other than the one in "://"  *)
+(* (a doubled, leading or trailing "/").  Both are defined on the segments  *)
+(* of a string, Split(s, "/"), so that a string is split once.              *)
+EndsWithColon(p) == p # "" /\ Ch(p, Len(p)) = ":"
+RedundantP(parts) ==
+  \E j \in 1..Len(parts) : parts[j] = "" /\ Len(parts) > 1 /\ ~(j = 2 /\ EndsWithColon(parts[1]))
+HasRedundantSlash(s) == RedundantP(Split(s, "/"))
+(* a comparison device for inputs with redundant slashes: the non-empty     *)
+(* segments, joined (both sides are squeezed the same way)                  *)
+SqueezeP(parts) == Join(SelectSeq(parts, LAMBDA p : p # ""), "/")
+Squeeze(s) == SqueezeP(Split(s, "/"))
 
 RECURSIVE TrimRightSlash(_)
 TrimRightSlash(s) == IF s # "" /\ Ch(s, Len(s)) = "/" THEN TrimRightSlash(SubSeq(s, 1, Len(s) - 1)) ELSE s
@@ -153,6 +146,10 @@ HasScheme(s) ==
   IN i > 1 /\ Ch(s, 1) \in (Upper \cup Lower)
      /\ AllIn(SubSeq(s, 1, i - 1), Upper \cup Lower \cup Digit \cup {"+", "-", "."})
 
+RECURSIVE TrimRightEmpty(_)
+TrimRightEmpty(parts) ==
+  IF Len(parts) > 0 /\ parts[Len(parts)] = "" THEN TrimRightEmpty(SubSeq(parts, 1, Len(parts) - 1)) ELSE parts
+
 ParseURI(s) ==
   LET parts == Split(s, "/")
       n == Len(parts)
@@ -162,11 +159,11 @@ ParseURI(s) ==
       rid == IF tpos >= 1 THEN parts[tpos + 1] ELSE ""
       ver == IF versioned THEN parts[n] ELSE ""
       pre == IF tpos >= 1 THEN SubSeq(parts, 1, tpos - 1) ELSE <<>>
-      preText == Join(pre, "/")
-      base == IF Mutant = "keepTrailingSlash" /\ Len(pre) > 0 THEN preText \o "/" ELSE TrimRightSlash(preText)
+      preT == TrimRightEmpty(pre)                      \* trailing slashes of the base are redundant
+      base == IF Mutant = "keepTrailingSlash" /\ Len(pre) > 0 THEN Join(pre, "/") \o "/" ELSE Join(preT, "/")
       shapeOk == tpos >= 1 /\ ty # "" /\ IsId(rid) /\ (~versioned \/ IsId(ver))
   IN IF shapeOk /\ Len(pre) = 0 THEN OkC(Rest(ty, "", rid, ver))
-     ELSE IF shapeOk /\ IsStrictBase(TrimRightSlash(preText)) THEN OkC(Rest(ty, base, rid, ver))
+     ELSE IF shapeOk /\ IsStrictBaseParts(preT) THEN OkC(Rest(ty, base, rid, ver))
      ELSE IF StartsWith(s, "urn:uuid:") /\ IsUuid(Drop(s, 9)) THEN OkC(NonRest(s))
      ELSE IF StartsWith(s, "urn:oid:") /\ IsOid(Drop(s, 8)) THEN OkC(NonRest(s))
      ELSE IF HasScheme(s) THEN Open("absolute-uri-not-rest")
@@ -208,12 +205,15 @@ VersionsAgree(a, b) ==
   IF Mutant = "versionWildcard" THEN a.ver = "" \/ b.ver = "" \/ a.ver = b.ver ELSE a.ver = b.ver
 
 (* Two references are the same reference when they are the same element or  *)
-(* both name a REST identity and the identities are equal.                  *)
-SameRef(a, b) ==
-  \/ a = b
-  \/ LET ia == IdentityOfRef(a)
-         ib == IdentityOfRef(b)
-     IN ia.has /\ ib.has /\ ia.type = ib.type /\ ia.rid = ib.rid /\ VersionsAgree(ia, ib)
+(* both name a REST identity and the identities are equal.  RefInfo is the  *)
+(* parse of a reference, computed once per reference.                       *)
+RefInfo(r) ==
+  [ref |-> r, id |-> IdentityOfRef(r),
+   base |-> IF r.shape \in {"weak", "weaknt"} THEN Parse(r.text).c.base ELSE ""]
+SameRefI(x, y) ==
+  \/ x.ref = y.ref
+  \/ x.id.has /\ y.id.has /\ x.id.type = y.id.type /\ x.id.rid = y.id.rid /\ VersionsAgree(x.id, y.id)
+SameRef(a, b) == SameRefI(RefInfo(a), RefInfo(b))
 
 (* --------------------------------------------------------------- canonical *)
 (* url|version#fragment.  Well-formed: url non-empty without "|" and "#";   *)
